@@ -149,6 +149,11 @@ impl Out {
             self.samples.push(c);
         }
     }
+    /// Progress marker read by the orchestrator when the harness is killed by the watchdog or aborts:
+    /// the case being executed is then the replay.
+    pub fn mark(&self, what: &str) {
+        let _ = std::fs::write(format!("{}/current.txt", self.dir), what);
+    }
     pub fn count(&mut self, key: &str) {
         *self.dist.entry(key.to_string()).or_insert(0) += 1;
     }
